@@ -339,6 +339,11 @@ class World:
         self.died = {}
         self.cur_cell = None
         self.truth = None
+        self.ops_since_cycle = []
+        self.dups_before = set()
+        self.last_cycle_caught_up = False
+        self.writes_at_cycle_end = 0
+        self.placement_at_cycle_end = None
         self._setup_static()
 
     # ------------------------------------------------------------------
@@ -574,11 +579,14 @@ class World:
                         if data:
                             truth.groups[name] = data.get('count', 0)
 
-    def truth_apply_freezes(self, log):
-        """Calls of Master._freeze_server during the step just made."""
+    def truth_apply_freezes(self, log, down_before=()):
+        """Calls of Master._freeze_server during the pending-start check.
+        An instance that does not start is taken off its server only if the
+        server is not down (one that is down cannot start anything: its
+        instances are kept for their retention time)."""
         truth = self.truth
         for servername, apps in log:
-            if servername not in truth.srv:
+            if servername not in truth.srv or servername in down_before:
                 continue
             truth.frozen.add(servername)
             server = self.master.servers.get(servername) \
@@ -689,6 +697,7 @@ class World:
     # ------------------------------------------------------------------
     # ops: the world
     def apply(self, op):
+        self.ops_since_cycle.append(op['op'])
         getattr(self, 'op_' + op['op'])(op)
 
     def _node_client(self, name, fresh=False):
@@ -808,6 +817,24 @@ class World:
             self.faults.get('cell_bucket_changed', 0) + 1
         self.dirty_since_cycle = True
 
+    def op_zombie_write(self, op):
+        """A delayed write of a former master that lost leadership but whose
+        session is not gone yet: a placement record for an instance under a
+        second server (fault kind: duplicated/late message)."""
+        if self.zk.nodes.get(z.path.scheduled(op['app'])) is None:
+            return
+        if self.zk.nodes.get(z.path.placement(op['server'])) is None:
+            return
+        path = z.path.placement(op['server'], op['app'])
+        if self.zk.nodes.get(path) is not None:
+            return
+        zkutils.put(self.admin, path, op['data'])
+        self.faults['zombie_write'] = self.faults.get('zombie_write', 0) + 1
+        self.dirty_since_cycle = True
+        # ... and the newly elected master starts (one atomic op: a duplicate
+        # under a RUNNING master is outside the quantifiers)
+        self.op_restart({'op': 'restart'})
+
     def op_running(self, op):
         """The node reports the instance running (ephemeral /running/x)."""
         name = op['name']
@@ -886,6 +913,7 @@ class World:
         if master.up_to_date:
             return
         writes_before = self.master_client.nwrites
+        self.dups_before = self.duplicates()
         caught_up = self.caught_up()
         if op.get('crash_at') is not None:
             self.master_client.fault_plan = {
@@ -915,6 +943,33 @@ class World:
             self.nontrivial += 1
         self.after_cycle('cycle', caught_up)
 
+    def op_c11_probe(self, _op):
+        """Restart probe between cycles, allowed in its strong form when the
+        only thing that changed since the last caught-up cycle is identity
+        group configuration (and the clock)."""
+        if self.prop != 'C11' or self.master is None:
+            return
+        strong = self.last_cycle_caught_up and all(
+            kind in ('group', 'group_delete', 'advance', 'c11_probe',
+                     'drain', 'snap', 'process')
+            for kind in self.ops_since_cycle) and not self.master_wrote()
+        if strong:
+            self.probes['restart_probes_after_group_change'] = \
+                self.probes.get('restart_probes_after_group_change', 0) + 1
+        self.restart_probe(strong)
+
+    def master_wrote(self):
+        """Did the master itself change placement records since the last
+        cycle (it does not between cycles, except through remove_app)."""
+        return self.master_client.nwrites != self.writes_at_cycle_end and \
+            self.placement_digest() != self.placement_at_cycle_end
+
+    def placement_digest(self):
+        return logmod.fingerprint(sorted(
+            (app, srv, json.dumps(data, sort_keys=True))
+            for app, recs in self.stored_placement().items()
+            for srv, data in recs))
+
     def op_integrity(self, _op):
         master = self.master
         if master is None:
@@ -924,6 +979,10 @@ class World:
         global _FREEZE_LOG
         cellp = self.prop in CELL_PROPS
         _FREEZE_LOG = [] if cellp else None
+        down_before = set()
+        if cellp:
+            down_before = {name for name in self.truth.srv
+                           if self._stored_state(name) in ('down', None)}
         try:
             self._guard('check_integrity', master.check_integrity)
         except MasterDied as err:
@@ -931,7 +990,7 @@ class World:
             self.on_master_died(err)
             return
         if cellp:
-            self.truth_apply_freezes(_FREEZE_LOG)
+            self.truth_apply_freezes(_FREEZE_LOG, down_before)
             _FREEZE_LOG = None
         frozen_after = {n for n, s in master.servers.items()
                         if s.state is scheduler.State.frozen}
@@ -950,6 +1009,7 @@ class World:
     def op_restart(self, op):
         """A newly elected master starts on the stored state."""
         self.faults['master_restart'] += 1
+        self.dups_before = self.duplicates()
         fault = None
         if op.get('crash_at') is not None:
             fault = {'at': op['crash_at'], 'kind': 'crash',
@@ -957,7 +1017,12 @@ class World:
         try:
             self.start_master(fault=fault)
         except MasterDied as err:
-            self.on_master_died(err)
+            # a state on which a newly elected master dies in load_model /
+            # init_schedule leaves the cell without a scheduler for good
+            self.master = None
+            self.fail('%s:master-cannot-start:%s' % (
+                self.prop if self.prop in ('C09', 'C10', 'C11') else 'C09',
+                err.where.split(':')[0]), '%s' % err)
             return
         except SimCrash:
             self.faults['master_crash'] += 1
@@ -972,6 +1037,7 @@ class World:
         must complete start-up, publish a placement equal to its model and
         pass its own integrity check."""
         fault = None
+        self.dups_before = self.duplicates()
         if op.get('crash_at') is not None:
             fault = {'at': op['crash_at'], 'kind': 'crash',
                      'applied': bool(op.get('applied'))}
@@ -1039,10 +1105,14 @@ class World:
                 out.setdefault(app, []).append((srv, data))
         return out
 
+    def duplicates(self):
+        stored = self.stored_placement()
+        return {app for app, recs in stored.items() if len(recs) > 1}
+
     def check_no_duplicates(self, when):
         stored = self.stored_placement()
         for app in sorted(stored):
-            if len(stored[app]) > 1:
+            if len(stored[app]) > 1 and app not in self.dups_before:
                 self.fail('C10:placed-twice:%s' % when,
                           '%s has placement records under %s' % (
                               app, [s for s, _d in stored[app]]))
@@ -1110,6 +1180,11 @@ class World:
         elif self.prop == 'C11':
             self.restart_probe(caught_up and when == 'cycle')
         self.dirty_since_cycle = False
+        self.ops_since_cycle = []
+        self.last_cycle_caught_up = bool(caught_up and when == 'cycle')
+        self.writes_at_cycle_end = self.master_client.nwrites
+        self.placement_at_cycle_end = self.placement_digest() \
+            if self.prop == 'C11' else None
 
     def restart_probe(self, strong):
         """C11: a fresh master's load_model() on a copy of the tree."""
@@ -1352,6 +1427,20 @@ class Generator:
                 [{'op': 'drain'}, {'op': 'master_cycle'}]]))
         return {'op': 'cell_bucket', 'name': name, 'present': not present}
 
+    def g_zombie_write(self, world):
+        stored = world.stored_placement()
+        apps = sorted(a for a, recs in stored.items() if len(recs) == 1)
+        servers = world.zk.children(z.PLACEMENT) or []
+        if not apps or len(servers) < 2:
+            return None
+        app = self.rng.choice(apps)
+        cur, data = stored[app][0]
+        others = [x for x in servers if x != cur]
+        if not others:
+            return None
+        return {'op': 'zombie_write', 'app': app,
+                'server': self.rng.choice(others), 'data': data}
+
     def g_running(self, world):
         stored = sorted(world.stored_placement())
         return {'op': 'running', 'name': self.rng.choice(stored)} \
@@ -1426,6 +1515,19 @@ class Generator:
             {'op': 'drain'}, {'op': 'master_cycle'}])
         return {'op': 'presence_down', 'name': name}
 
+    def g_probe_after_group(self, world):
+        """C11: an identity group is changed and a fail-over happens before
+        the master computes another cycle: the recorded identities must still
+        be reloaded (the statement lists no exception for shrunk groups)."""
+        if not self.config['group_names']:
+            return None
+        self.follow.extend([
+            {'op': 'group', 'name': self.rng.choice(
+                self.config['group_names']),
+             'count': self.rng.choice([0, 1, 2])},
+            {'op': 'c11_probe'}])
+        return {'op': 'drain'}
+
     def g_identity_churn(self, world):
         """The holder of a low identity leaves, then the group shrinks below
         an identity that is still held; optionally the master fails over."""
@@ -1461,7 +1563,7 @@ OP_WEIGHTS = [
     ('advance', 8), ('snap', 10), ('process', 14), ('drain', 10),
     ('master_cycle', 22), ('integrity', 3), ('tick', 1), ('restart', 3),
     ('failover_after_down', 3), ('identity_churn', 6), ('cell_bucket', 2),
-    ('flap_with_reload', 2),
+    ('flap_with_reload', 2), ('zombie_write', 1), ('probe_after_group', 2),
 ]
 
 
@@ -1497,7 +1599,7 @@ def gen_allocations(rng, cfg):
                     'memory': '%dM' % (rng.randint(0, cfg['cap_hi']) * 256),
                     'cpu': '%d%%' % (rng.randint(0, cfg['cap_hi']) * 10),
                     'disk': '%dM' % (rng.randint(0, cfg['cap_hi']) * 256),
-                    'rank': rng.choice([100, 100, 50, 10]),
+                    'rank': rng.choice([100, 100, 50, 10, 0]),
                     'rank_adjustment': rng.choice([0, 0, 10]),
                     'max_utilization': rng.choice([None, None, 1.0, 2.0]),
                     'traits': ([rng.choice(cfg['traits'])]
